@@ -4,6 +4,7 @@ package c17
 
 import (
 	"context"
+	"errors"
 	"fmt"
 	"strconv"
 	"strings"
@@ -11,6 +12,9 @@ import (
 	"testing"
 	"testing/synctest"
 	"time"
+
+	"github.com/ipfs/go-datastore"
+	contextds "github.com/ipfs/go-datastore/context"
 
 	"github.com/celestiaorg/go-header/store"
 
@@ -66,10 +70,30 @@ func isHeightKey(k string) bool {
 
 const U = 24
 
-func setup(t *testing.T, batch int) *env {
+// dims: the dimensions of a mode 0/1/2 case besides the write batch size: the datastore flavour (plain, or
+// context-aware: go-datastore/context over the recording datastore, as in the race cases) and the size of
+// the two caches (0 = the library's default)
+type dims struct {
+	ctxf  bool
+	cache int
+}
+
+func randDims(rng *emit.Rand) dims {
+	return dims{ctxf: rng.Chance(40), cache: []int{4, 4, 2, 16, 0}[rng.Intn(5)]}
+}
+
+func setup(t *testing.T, batch int, dm dims) *env {
 	e := &env{t: t, ds: storeh.NewRecDS(), reg: vhdr.NewRegistry()}
 	e.chain = vhdr.Chain("a", 1, U, time.Now().UnixNano(), 1000, nil)
-	s, err := store.NewStore[*vhdr.Header](e.ds, store.WithWriteBatchSize(batch), store.WithStoreCacheSize(4), store.WithIndexCacheSize(4))
+	var ds datastore.Batching = e.ds
+	if dm.ctxf {
+		ds = contextds.WrapDatastore(e.ds).(datastore.Batching)
+	}
+	opts := []store.Option{store.WithWriteBatchSize(batch)}
+	if dm.cache > 0 {
+		opts = append(opts, store.WithStoreCacheSize(dm.cache), store.WithIndexCacheSize(dm.cache))
+	}
+	s, err := store.NewStore[*vhdr.Header](ds, opts...)
 	if err != nil {
 		t.Fatal(err)
 	}
@@ -129,8 +153,10 @@ func gated(t *testing.T, rng *emit.Rand, batch int) (string, map[string]any, int
 	var term string
 	var nobs int
 	descr := map[string]any{}
+	dm := randDims(rng)
+	descr["ctxf"], descr["cache"] = dm.ctxf, dm.cache
 	synctest.Test(t, func(t *testing.T) {
-		e := setup(t, batch)
+		e := setup(t, batch, dm)
 		ctx := context.Background()
 		var init []uint64
 		if rng.Chance(75) {
@@ -200,8 +226,80 @@ func gated(t *testing.T, rng *emit.Rand, batch int) (string, map[string]any, int
 		final := storeh.ProbeOf(e.s, e.chain, e.reg, U)
 		_ = e.s.Stop(ctx)
 		nobs = len(obs)
-		term = fmt.Sprintf("Case17 0 %d %s %s %s %s [] [] %s", batch, e.chainTerms(), heights(init), emit.List(qs), emit.List(obs), final)
+		term = fmt.Sprintf("Case17 0 %d %s %s %s %s [] [] None %s", batch, e.chainTerms(), heights(init), emit.List(qs), emit.List(obs), final)
 		descr["mode"], descr["init"], descr["queue"], descr["batch"] = "gated", init, queue, batch
+	})
+	return term, descr, nobs
+}
+
+// fullQueue: the bounded writes channel (16) and Append's blocking path. The flush of the first Append is parked
+// at its first datastore call; 16 further Appends fill the channel; the 18th Append blocks in its second select
+// until its context ends (virtual time) and must return that context's error WITHOUT storing its header: the
+// model's queue holds the 17 accepted batches only (a failed Append is a no-op), the final probe must be the
+// sequential result of those, and the failed Append's height must be absent by height and by hash.
+func fullQueue(t *testing.T, batch int, dm dims) (string, map[string]any, int) {
+	var term string
+	var nobs int
+	descr := map[string]any{"mode": "gated-full-queue", "batch": batch, "ctxf": dm.ctxf, "cache": dm.cache}
+	synctest.Test(t, func(t *testing.T) {
+		e := setup(t, batch, dm)
+		ctx := context.Background()
+		var mu sync.Mutex
+		armed, parked := true, false
+		gate := make(chan struct{})
+		park := func() {
+			mu.Lock()
+			if !armed {
+				mu.Unlock()
+				return
+			}
+			armed, parked = false, true
+			mu.Unlock()
+			<-gate
+		}
+		e.ds.OnGet = func(key string, found bool) {
+			if !found && isHeightKey(key) {
+				park()
+			}
+		}
+		e.ds.OnCommit = park
+		var qs, obs, sy []string
+		for n := uint64(1); n <= 17; n++ {
+			if err := e.s.Append(ctx, e.chain[n-1]); err != nil {
+				t.Fatalf("Append %d with a free queue slot: %v", n, err)
+			}
+			qs = append(qs, heights([]uint64{n}))
+			if n == 1 {
+				synctest.Wait()
+				mu.Lock()
+				p := parked
+				mu.Unlock()
+				if !p {
+					t.Fatal("the flush of the first Append did not reach its first datastore call")
+				}
+				obs = append(obs, fmt.Sprintf("(0%%nat, 1%%nat, %s)", e.observe()))
+			}
+		}
+		// the queue is full (16 batches buffered, one in the parked flush): this Append must wait, and give up with its context
+		c18, cancel := context.WithTimeout(ctx, time.Second)
+		err18 := e.s.Append(c18, e.chain[17])
+		cancel()
+		sy = append(sy, emit.B(err18 != nil && (errors.Is(err18, context.DeadlineExceeded) || errors.Is(err18, context.Canceled))))
+		obs = append(obs, fmt.Sprintf("(0%%nat, 1%%nat, %s)", e.observe()))
+		gate <- struct{}{}
+		synctest.Wait()
+		e.ds.OnGet, e.ds.OnCommit = nil, nil
+		_ = e.s.Sync(ctx)
+		synctest.Wait()
+		// the refused header is nowhere
+		has, _ := e.s.Has(ctx, e.chain[17].Hash())
+		_, gerr := e.s.Get(ctx, e.chain[17].Hash())
+		sy = append(sy, emit.B(!has && gerr != nil && e.s.Height() == 17))
+		final := storeh.ProbeOf(e.s, e.chain, e.reg, U)
+		_ = e.s.Stop(ctx)
+		nobs = 3
+		term = fmt.Sprintf("Case17 0 %d %s [] %s %s [] %s None %s", batch, e.chainTerms(), emit.List(qs), emit.List(obs), emit.List(sy), final)
+		descr["append18_err"] = fmt.Sprint(err18)
 	})
 	return term, descr, nobs
 }
@@ -211,8 +309,10 @@ func free(t *testing.T, rng *emit.Rand, batch int, withDeleter bool) (string, ma
 	var term string
 	var nobs int
 	descr := map[string]any{}
+	dm := randDims(rng)
+	descr["ctxf"], descr["cache"] = dm.ctxf, dm.cache
 	synctest.Test(t, func(t *testing.T) {
-		e := setup(t, batch)
+		e := setup(t, batch, dm)
 		ctx := context.Background()
 		var init []uint64
 		// half of the deleter-free runs start from a store whose first header is not height 1: the heights
@@ -253,7 +353,7 @@ func free(t *testing.T, rng *emit.Rand, batch int, withDeleter bool) (string, ma
 				all = append(all[:at], append([][]uint64{sg}, all[at:]...)...)
 			}
 		}
-		nw := 2 + rng.Intn(2)
+		nw := 2 + rng.Intn(3) // 2..4 writers
 		per := make([][][]uint64, nw)
 		for i, b := range all {
 			per[i%nw] = append(per[i%nw], b)
@@ -299,16 +399,19 @@ func free(t *testing.T, rng *emit.Rand, batch int, withDeleter bool) (string, ma
 				}
 			}(wi, per[wi], delays)
 		}
+		del := "None"
+		var delTo uint64
+		var delErr error
 		if withDeleter {
 			wg.Add(1)
-			to := uint64(2 + rng.Intn(len(init)-2))
+			delTo = uint64(2 + rng.Intn(len(init)-2))
 			d := time.Duration(rng.Intn(8)) * time.Microsecond
 			go func() {
 				defer wg.Done()
 				time.Sleep(d)
-				_ = e.s.DeleteRange(ctx, 1, to)
+				delErr = e.s.DeleteRange(ctx, 1, delTo)
 			}()
-			descr["delete_to"] = to
+			descr["delete_to"] = delTo
 		}
 		nr := 1 + rng.Intn(2)
 		robs := make([][]string, nr)
@@ -346,12 +449,18 @@ func free(t *testing.T, rng *emit.Rand, batch int, withDeleter bool) (string, ma
 		mode := 1
 		if withDeleter {
 			mode = 2
+			out := "OOk"
+			if delErr != nil {
+				out = "OFail"
+				descr["delete_err"] = delErr.Error()
+			}
+			del = fmt.Sprintf("(Some (%s, %s))", emit.N(delTo), out)
 		}
 		var sy []string
 		for _, l := range synced {
 			sy = append(sy, l...)
 		}
-		term = fmt.Sprintf("Case17 %d %d %s %s %s [] %s %s %s", mode, batch, e.chainTerms(), heights(init), emit.List(qs), emit.List(fs), emit.List(sy), final)
+		term = fmt.Sprintf("Case17 %d %d %s %s %s [] %s %s %s %s", mode, batch, e.chainTerms(), heights(init), emit.List(qs), emit.List(fs), emit.List(sy), del, final)
 		descr["mode"], descr["init"], descr["queue"], descr["batch"], descr["writers"], descr["readers"] = mode, init, all, batch, nw, nr
 	})
 	return term, descr, nobs
@@ -384,6 +493,14 @@ func TestC17(t *testing.T) {
 		w.Count("mode", "race")
 		w.Count("race-scenario", sc.name)
 	}
+	for _, fq := range []struct {
+		batch int
+		dm    dims
+	}{{1, dims{false, 4}}, {64, dims{true, 0}}, {3, dims{false, 2}}} {
+		term, d, nobs := fullQueue(t, fq.batch, fq.dm)
+		w.Add("X17 ("+term+")", d, fmt.Sprint(d), nobs >= 3)
+		w.Count("mode", "gated-full-queue")
+	}
 	for i := 0; i < n; i++ {
 		batch := []int{1, 2, 3, 5, 64}[rng.Intn(5)]
 		var term string
@@ -410,6 +527,13 @@ func TestC17(t *testing.T) {
 		w.Count("mode", fmt.Sprint(d["mode"]))
 		w.Count("observations", fmt.Sprint(nobs/5*5))
 		w.Count("batch", fmt.Sprint(batch))
+		if _, ok := d["ctxf"]; ok {
+			w.Count("datastore-ctxf", fmt.Sprint(d["ctxf"]))
+			w.Count("cache", fmt.Sprint(d["cache"]))
+		}
+		if nw, ok := d["writers"]; ok {
+			w.Count("writers", fmt.Sprint(nw))
+		}
 	}
 	if err := w.Flush(); err != nil {
 		t.Fatal(err)
